@@ -1,5 +1,748 @@
-//! C20 stub (being written)
+//! C20 — uuids are immutable and the system uuid range is protected.
+//!
+//! Drives REAL QueryServers (fresh in-memory server per history) through random histories of
+//! create / modify / batch_modify / delete requests issued by the internal system identity, a
+//! read-write user and a read-only user, where the user's group holds ONE access control profile
+//! chosen by the history's configuration (grant-everything most of the time).  After every request
+//! the answer and a view of the directory (checksums of the reserved uuid range, the state of
+//! every tracked uuid) are recorded.  The Coq model (KV.C20.Model) replays the same history
+//! (`agree`); `pcheck` evaluates the property on the implementation's own observations.
+//! The Base plugin's create-side checks are additionally run in isolation through a hook
+//! (`CBase` cases), because in the full create path the access module refuses reserved uuids first.
+use kanidmd_lib::entry::{Entry, EntryInit, EntryNew};
+use kanidmd_lib::prelude::*;
+use kanidmd_lib::testkit::{setup_test, TestConfiguration};
+use kanidmd_lib::valueset::{ValueSet, ValueSetUtf8, ValueSetUuid};
 use kanidmd_lib::verif_hooks::c20::base_pre_create_transform;
+use kanidmd_lib::{filter, filter_all};
+use kvh::*;
+use std::collections::BTreeMap;
+
+const ANON: u128 = 0x0000_ffff_ffff_ffff;
+const DNE: u128 = 0x0000_ffff_ffff_fffe;
+const DYN_MIN: u128 = 0x0001_0000_0000_0000;
+const U_USER: u128 = 0xc20c_20c2_0000_4000_8000_0000_0000_0001;
+const U_GROUP: u128 = 0xc20c_20c2_0000_4000_8000_0000_0000_0002;
+const U_ACP: u128 = 0xc20c_20c2_0000_4000_8000_0000_0000_0003;
+const T_BASE: u128 = 0xc20c_20c2_0000_4000_8000_0000_0000_0100;
+const R0: u128 = 0xc200_0007; // a reserved-range entry created by the system identity in the set-up
+const STANDIN_INIT: u128 = 1 << 120;
+const STANDIN_GEN: u128 = 1 << 121;
+
+const PROT_CLASSES: [EntryClass; 8] = [
+    EntryClass::System,
+    EntryClass::DomainInfo,
+    EntryClass::SystemInfo,
+    EntryClass::SystemConfig,
+    EntryClass::DynGroup,
+    EntryClass::SyncObject,
+    EntryClass::Tombstone,
+    EntryClass::Recycled,
+];
+
+#[derive(Clone, Copy, Debug, PartialEq)]
+enum Ident {
+    System,
+    User(bool),
+}
+#[derive(Clone, Debug)]
+struct Cent {
+    uuids: Vec<u128>,
+    prot: bool,
+}
+#[derive(Clone, Debug)]
+enum Modi {
+    Present(bool, u128), // (is uuid attr, value)
+    Removed(bool, u128),
+    Purged(bool),
+    Set(bool, u128),
+    AssertUuid(u128),
+}
+#[derive(Clone, Debug)]
+enum Target {
+    Uuids(Vec<u128>),
+    All,
+}
+#[derive(Clone, Debug)]
+enum Op {
+    Create(Vec<Cent>),
+    Modify(Target, Vec<Modi>),
+    Batch(Vec<(u128, Vec<Modi>)>),
+    Delete(Target),
+}
+#[derive(Clone, Copy, Debug)]
+struct Cfg {
+    mod_uuid: bool,
+    mod_other: bool,
+    create: bool,
+    create_uuid: bool,
+    delete: bool,
+}
+
+fn err_code(e: &OperationError) -> &'static str {
+    match e {
+        OperationError::EmptyRequest => "EEmpty",
+        OperationError::NoMatchingEntries => "ENoMatch",
+        OperationError::AccessDenied => "EDenied",
+        OperationError::MissingEntries => "EMissing",
+        OperationError::ModifyAssertionFailed => "EAssert",
+        OperationError::SystemProtectedAttribute => "ESysProt",
+        OperationError::SchemaViolation(_) => "ESchema",
+        OperationError::Plugin(PluginError::Base(m)) => match m.as_str() {
+            "Uuid has multiple values" => "EBaseMulti",
+            "Uuid duplicate detected in request" => "EBaseDupReq",
+            "Uuid must not be in protected range" => "EBaseRange",
+            "Attempt to create UUID_DOES_NOT_EXIST" => "EBaseDNE",
+            "Uuid duplicate found in database" => "EBaseDupDb",
+            _ => "EOther",
+        },
+        _ => "EOther",
+    }
+}
+
+fn uu(u: u128) -> Uuid {
+    Uuid::from_u128(u)
+}
+
+fn mk_entry(name: &str, c: &Cent) -> Entry<EntryInit, EntryNew> {
+    let mut e: Entry<EntryInit, EntryNew> = kanidmd_lib::entry_init!(
+        (Attribute::Class, EntryClass::Object.to_value()),
+        (Attribute::Class, EntryClass::Group.to_value()),
+        (Attribute::Name, Value::new_iname(name))
+    );
+    for u in &c.uuids {
+        e.add_ava(Attribute::Uuid, Value::Uuid(uu(*u)));
+    }
+    if c.prot {
+        e.add_ava(Attribute::Class, EntryClass::System.to_value());
+    }
+    e
+}
+
+fn mk_mod(m: &Modi) -> Modify {
+    let a = |is_uuid: bool| if is_uuid { Attribute::Uuid } else { Attribute::Description };
+    match m {
+        Modi::Present(true, v) => Modify::Present(Attribute::Uuid, Value::Uuid(uu(*v))),
+        Modi::Present(false, _) => Modify::Present(Attribute::Description, Value::new_utf8s("d")),
+        Modi::Removed(true, v) => Modify::Removed(Attribute::Uuid, PartialValue::Uuid(uu(*v))),
+        Modi::Removed(false, _) => Modify::Removed(Attribute::Description, PartialValue::new_utf8s("d")),
+        Modi::Purged(b) => Modify::Purged(a(*b)),
+        Modi::Set(true, v) => Modify::Set(Attribute::Uuid, ValueSetUuid::new(uu(*v)) as ValueSet),
+        Modi::Set(false, _) => Modify::Set(Attribute::Description, ValueSetUtf8::new("d".to_string()) as ValueSet),
+        Modi::AssertUuid(v) => Modify::Assert(Attribute::Uuid, PartialValue::Uuid(uu(*v))),
+    }
+}
+fn mk_ml(ml: &[Modi]) -> ModifyList<ModifyInvalid> {
+    ModifyList::new_list(ml.iter().map(mk_mod).collect())
+}
+fn mk_filter(t: &Target) -> Filter<FilterInvalid> {
+    match t {
+        Target::All => filter!(f_pres(Attribute::Class)),
+        Target::Uuids(us) => filter!(f_or(us.iter().map(|u| f_eq(Attribute::Uuid, PartialValue::Uuid(uu(*u)))).collect())),
+    }
+}
+
+// ------------------------------------------------------------------ Coq printers
+fn c_ident(i: Ident) -> String {
+    match i {
+        Ident::System => "ISystem".into(),
+        Ident::User(rw) => capp("IUser", &[cbool(rw)]),
+    }
+}
+fn c_cent(c: &Cent, gen: u128) -> String {
+    capp("mkcent", &[clist(&c.uuids, |u| cn128(*u)), cn128(gen), cbool(c.prot)])
+}
+fn c_attr(b: bool) -> String {
+    if b { "AUuid".into() } else { "AOther".into() }
+}
+fn c_modi(m: &Modi) -> String {
+    match m {
+        Modi::Present(a, v) => capp("MPresent", &[c_attr(*a), cn128(*v)]),
+        Modi::Removed(a, v) => capp("MRemoved", &[c_attr(*a), cn128(*v)]),
+        Modi::Purged(a) => capp("MPurged", &[c_attr(*a)]),
+        Modi::Set(a, v) => capp("MSet", &[c_attr(*a), cn128(*v)]),
+        Modi::AssertUuid(v) => capp("MAssertUuid", &[cn128(*v)]),
+    }
+}
+fn c_target(t: &Target) -> String {
+    match t {
+        Target::All => "TAll".into(),
+        Target::Uuids(us) => capp("TUuids", &[clist(us, |u| cn128(*u))]),
+    }
+}
+fn c_op(o: &Op, gens: &[u128]) -> String {
+    match o {
+        Op::Create(es) => {
+            let v: Vec<String> = es.iter().zip(gens.iter()).map(|(c, g)| c_cent(c, *g)).collect();
+            capp("OCreate", &[clist_s(&v)])
+        }
+        Op::Modify(t, ml) => capp("OModify", &[c_target(t), clist(ml, c_modi)]),
+        Op::Batch(ms) => capp("OBatch", &[clist(ms, |(u, ml)| format!("({}, {})", cn128(*u), clist(ml, c_modi)))]),
+        Op::Delete(t) => capp("ODelete", &[c_target(t)]),
+    }
+}
+#[derive(Clone, Debug, PartialEq)]
+struct Obs {
+    live: (u128, u64),
+    rec: (u128, u64),
+    track: Vec<u64>,
+}
+fn c_obs(o: &Obs) -> String {
+    format!(
+        "(({}, {}), ({}, {}), {})",
+        cn128(o.live.0),
+        cn(o.live.1),
+        cn128(o.rec.0),
+        cn(o.rec.1),
+        clist(&o.track, |s| cn(*s))
+    )
+}
+
+// ------------------------------------------------------------------ server access
+/// (uuid, protected class, live) of every entry, recycled ones included, sorted by uuid
+async fn listing(qs: &QueryServer) -> Vec<(u128, bool, bool)> {
+    let mut r = qs.read().await.expect("read");
+    let es = r.internal_search(filter_all!(f_pres(Attribute::Class))).expect("listing");
+    let mut v: Vec<(u128, bool, bool)> = es
+        .iter()
+        .map(|e| {
+            let dead = e.attribute_equality(Attribute::Class, &EntryClass::Recycled.into())
+                || e.attribute_equality(Attribute::Class, &EntryClass::Tombstone.into());
+            let prot = PROT_CLASSES.iter().any(|c| e.attribute_equality(Attribute::Class, &(*c).into()));
+            (e.get_uuid().as_u128(), prot, !dead)
+        })
+        .collect();
+    v.sort();
+    v
+}
+fn observe(l: &[(u128, bool, bool)], track: &[u128]) -> Obs {
+    let mut live = (0u128, 0u64);
+    let mut rec = (0u128, 0u64);
+    for (u, _, alive) in l {
+        if *u < DYN_MIN {
+            if *alive {
+                live = (live.0 + u, live.1 + 1);
+            } else {
+                rec = (rec.0 + u, rec.1 + 1);
+            }
+        }
+    }
+    let track = track
+        .iter()
+        .map(|t| {
+            let m: Vec<_> = l.iter().filter(|x| x.0 == *t).collect();
+            match m.len() {
+                0 => 2,
+                1 => if m[0].2 { 0 } else { 1 },
+                _ => 3, // two entries with one uuid: outside the model
+            }
+        })
+        .collect();
+    Obs { live, rec, track }
+}
+
+fn acp_entry(g: &Cfg) -> Entry<EntryInit, EntryNew> {
+    let mut e: Entry<EntryInit, EntryNew> = kanidmd_lib::entry_init!(
+        (Attribute::Class, EntryClass::Object.to_value()),
+        (Attribute::Class, EntryClass::AccessControlProfile.to_value()),
+        (Attribute::Class, EntryClass::AccessControlTargetScope.to_value()),
+        (Attribute::Class, EntryClass::AccessControlReceiverGroup.to_value()),
+        (Attribute::Class, EntryClass::AccessControlSearch.to_value()),
+        (Attribute::Name, Value::new_iname("c20_acp")),
+        (Attribute::Uuid, Value::Uuid(uu(U_ACP))),
+        (Attribute::AcpReceiverGroup, Value::Refer(uu(U_GROUP))),
+        (Attribute::AcpTargetScope, Value::new_json_filter_s("{\"pres\":\"class\"}").expect("filter")),
+        (Attribute::AcpSearchAttr, Value::from(Attribute::Name)),
+        (Attribute::AcpSearchAttr, Value::from(Attribute::Class)),
+        (Attribute::AcpSearchAttr, Value::from(Attribute::Uuid)),
+        (Attribute::AcpSearchAttr, Value::from(Attribute::Description))
+    );
+    if g.mod_uuid || g.mod_other {
+        e.add_ava(Attribute::Class, EntryClass::AccessControlModify.to_value());
+        if g.mod_uuid {
+            e.add_ava(Attribute::AcpModifyPresentAttr, Value::from(Attribute::Uuid));
+            e.add_ava(Attribute::AcpModifyRemovedAttr, Value::from(Attribute::Uuid));
+        }
+        if g.mod_other {
+            e.add_ava(Attribute::AcpModifyPresentAttr, Value::from(Attribute::Description));
+            e.add_ava(Attribute::AcpModifyRemovedAttr, Value::from(Attribute::Description));
+        }
+    }
+    if g.create {
+        e.add_ava(Attribute::Class, EntryClass::AccessControlCreate.to_value());
+        e.add_ava(Attribute::AcpCreateClass, EntryClass::Object.to_value());
+        e.add_ava(Attribute::AcpCreateClass, EntryClass::Group.to_value());
+        e.add_ava(Attribute::AcpCreateClass, EntryClass::System.to_value());
+        e.add_ava(Attribute::AcpCreateAttr, Value::from(Attribute::Class));
+        e.add_ava(Attribute::AcpCreateAttr, Value::from(Attribute::Name));
+        e.add_ava(Attribute::AcpCreateAttr, Value::from(Attribute::Description));
+        if g.create_uuid {
+            e.add_ava(Attribute::AcpCreateAttr, Value::from(Attribute::Uuid));
+        }
+    }
+    if g.delete {
+        e.add_ava(Attribute::Class, EntryClass::AccessControlDelete.to_value());
+    }
+    e
+}
+
+/// fresh server + test user, its group, the profile, four target entries and one reserved entry
+async fn new_server(g: &Cfg) -> QueryServer {
+    let qs = setup_test(TestConfiguration::default()).await;
+    let mut w = qs.write(duration_from_epoch_now()).await.expect("write");
+    let user: Entry<EntryInit, EntryNew> = kanidmd_lib::entry_init!(
+        (Attribute::Class, EntryClass::Object.to_value()),
+        (Attribute::Class, EntryClass::Account.to_value()),
+        (Attribute::Class, EntryClass::ServiceAccount.to_value()),
+        (Attribute::Name, Value::new_iname("c20_user")),
+        (Attribute::DisplayName, Value::new_utf8s("c20 user")),
+        (Attribute::Uuid, Value::Uuid(uu(U_USER)))
+    );
+    let group: Entry<EntryInit, EntryNew> = kanidmd_lib::entry_init!(
+        (Attribute::Class, EntryClass::Object.to_value()),
+        (Attribute::Class, EntryClass::Group.to_value()),
+        (Attribute::Name, Value::new_iname("c20_group")),
+        (Attribute::Uuid, Value::Uuid(uu(U_GROUP))),
+        (Attribute::Member, Value::Refer(uu(U_USER)))
+    );
+    let mut es = vec![user, group, acp_entry(g)];
+    for k in 0..4u128 {
+        es.push(mk_entry(&format!("c20_t{}", k), &Cent { uuids: vec![T_BASE + k], prot: k == 3 }));
+    }
+    es.push(mk_entry("c20_r0", &Cent { uuids: vec![R0], prot: false }));
+    w.internal_create(es).expect("setup create");
+    w.commit().expect("setup commit");
+    qs
+}
+
+async fn user_ident(w: &mut QueryServerWriteTransaction<'_>, rw: bool) -> Identity {
+    let e = w.internal_search_uuid(uu(U_USER)).expect("test user");
+    let i = Identity::from_impersonate_entry_readwrite(e);
+    if rw { i } else { i.project_with_scope(AccessScope::ReadOnly) }
+}
+fn system_ident() -> Identity {
+    CreateEvent::new_internal(vec![]).ident
+}
+
+/// run one request in its own write transaction; commit on success, drop otherwise.
+/// returns the result constructor and, for creates, the per entry generated uuid stand-ins
+async fn run_op(qs: &QueryServer, id: Ident, op: &Op, names: &mut u64, gen_ctr: &mut u128) -> (String, Vec<u128>) {
+    let mut w = qs.write(duration_from_epoch_now()).await.expect("write");
+    let ident = match id {
+        Ident::System => system_ident(),
+        Ident::User(rw) => user_ident(&mut w, rw).await,
+    };
+    let mut gens: Vec<u128> = vec![];
+    let r: Result<(), OperationError> = match op {
+        Op::Create(cs) => {
+            let entries: Vec<_> = cs
+                .iter()
+                .map(|c| {
+                    *names += 1;
+                    mk_entry(&format!("c20_n{}", names), c)
+                })
+                .collect();
+            let ce = CreateEvent { ident, entries, return_created_uuids: true };
+            match w.create(&ce) {
+                Ok(created) => {
+                    let created = created.unwrap_or_default();
+                    for (k, c) in cs.iter().enumerate() {
+                        if c.uuids.is_empty() {
+                            // canonical stand-in for a generated uuid of the dynamic range; the raw
+                            // value if the server generated one inside the reserved range
+                            let g = created.get(k).map(|u| u.as_u128()).unwrap_or(0);
+                            *gen_ctr += 1;
+                            gens.push(if g >= DYN_MIN { STANDIN_GEN + *gen_ctr } else { g });
+                        } else {
+                            gens.push(0);
+                        }
+                    }
+                    Ok(())
+                }
+                Err(e) => {
+                    for _ in cs {
+                        *gen_ctr += 1;
+                        gens.push(STANDIN_GEN + *gen_ctr);
+                    }
+                    Err(e)
+                }
+            }
+        }
+        Op::Modify(t, ml) => {
+            let f = mk_filter(t);
+            match id {
+                Ident::System => w.internal_modify(&f, &mk_ml(ml)),
+                Ident::User(_) => match ModifyEvent::from_internal_parts(ident, &mk_ml(ml), &f, &w) {
+                    Ok(me) => w.modify(&me),
+                    Err(e) => Err(e),
+                },
+            }
+        }
+        Op::Batch(ms) => {
+            let mut modset = BTreeMap::new();
+            let mut bad = None;
+            for (u, ml) in ms {
+                match mk_ml(ml).validate(w.get_schema()) {
+                    Ok(v) => {
+                        modset.insert(uu(*u), v);
+                    }
+                    Err(e) => bad = Some(OperationError::SchemaViolation(e)),
+                }
+            }
+            match bad {
+                Some(e) => Err(e),
+                None => w.batch_modify(&BatchModifyEvent { ident, modset }),
+            }
+        }
+        Op::Delete(t) => {
+            let f = mk_filter(t);
+            match id {
+                Ident::System => w.internal_delete(&f),
+                Ident::User(_) => match DeleteEvent::from_parts(ident, &f, &mut w) {
+                    Ok(de) => w.delete(&de),
+                    Err(e) => Err(e),
+                },
+            }
+        }
+    };
+    match r {
+        Ok(()) => {
+            w.commit().expect("commit");
+            ("ROk".to_string(), gens)
+        }
+        Err(e) => {
+            drop(w);
+            (err_code(&e).to_string(), gens)
+        }
+    }
+}
+
+// ------------------------------------------------------------------ generators
+fn gen_modi(rng: &mut Rng, vals: &[u128], own: u128) -> Modi {
+    let v = if rng.chance(1, 3) { own } else { *rng.pick(vals) };
+    match rng.below(12) {
+        0 | 1 => Modi::Present(true, v),
+        2 | 3 => Modi::Removed(true, v),
+        4 => Modi::Purged(true),
+        5 | 6 => Modi::Set(true, v),
+        7 => Modi::AssertUuid(own),
+        8 => Modi::AssertUuid(v),
+        9 => Modi::Present(false, 0),
+        10 => Modi::Set(false, 0),
+        _ => {
+            if rng.chance(1, 2) { Modi::Purged(false) } else { Modi::Removed(false, 0) }
+        }
+    }
+}
+fn gen_ml(rng: &mut Rng, vals: &[u128], own: u128, allow_empty: bool) -> Vec<Modi> {
+    let n = if allow_empty && rng.chance(1, 10) { 0 } else { rng.range(1, 3) };
+    let mut ml: Vec<Modi> = (0..n).map(|_| gen_modi(rng, vals, own)).collect();
+    // every mod kind on the uuid attribute alone, often
+    if n == 1 && rng.chance(1, 2) {
+        ml = vec![match rng.below(4) {
+            0 => Modi::Present(true, *rng.pick(vals)),
+            1 => Modi::Removed(true, own),
+            2 => Modi::Purged(true),
+            _ => Modi::Set(true, *rng.pick(vals)),
+        }];
+    }
+    ml
+}
+
 fn main() {
-    let _ = base_pre_create_transform;
+    let args = parse_args();
+    let mut rng = Rng::new(args.seed);
+    let mut sink = Sink::new(&args, "KV.C20.Model", 100);
+    sink.rule = "hist: fresh in-memory server per history; a service-account user whose group holds one access control profile \
+(grant-everything in 60% of the histories, else each of modify-uuid / modify-other / create / create-with-uuid / delete switched at random); \
+8..24 requests by the system identity, the read-write user or the read-only user: creates of 1..3 entries with no / one / two uuid values drawn \
+from {0, 1, 0xc2000007, 0xc2000001, 2^48-3, UUID_DOES_NOT_EXIST, UUID_ANONYMOUS, 2^48, 2^48+1, fresh dynamic, existing}, modifies and batch modifies with every \
+modify kind (present, removed, purged, set, assert) on uuid and on description, deletes of test entries and of built-in entries (sampled so that \
+all are covered across histories, plus `pres class` = everything). base: Base::pre_create_transform alone (hook) on all 1- and 2-entry requests \
+over the uuid choices x {internal, user}. non-trivial = history in which a user request reached the uuid-modification guard, tried to create inside \
+the reserved range and tried to delete a built-in entry / base request touching the reserved range or a duplicate".into();
+    let rt = tokio::runtime::Builder::new_current_thread().enable_all().build().expect("rt");
+
+    // ---------------------------------------------------------------- constants
+    sink.case(
+        capp("CConst", &[cn128(UUID_ANONYMOUS.as_u128()), cn128(UUID_DOES_NOT_EXIST.as_u128()), cn128(DYNAMIC_RANGE_MINIMUM_UUID.as_u128())]),
+        format!("const anon={} dne={} dynmin={}", UUID_ANONYMOUS.as_u128(), UUID_DOES_NOT_EXIST.as_u128(), DYNAMIC_RANGE_MINIMUM_UUID.as_u128()),
+        true,
+    );
+    sink.bump("const");
+
+    let all_cfg = Cfg { mod_uuid: true, mod_other: true, create: true, create_uuid: true, delete: true };
+
+    // cases are collected first and written interleaved, so that every shard holds some histories
+    let mut base_cases: Vec<(String, String, bool)> = vec![];
+    let mut hist_cases: Vec<(String, String, bool)> = vec![];
+
+    // ---------------------------------------------------------------- Base plugin alone
+    {
+        let qs = rt.block_on(new_server(&all_cfg));
+        let choices: Vec<Vec<u128>> = vec![
+            vec![],
+            vec![0],
+            vec![1],
+            vec![R0],
+            vec![0xc200_0001],
+            vec![DNE - 1],
+            vec![DNE],
+            vec![ANON],
+            vec![DYN_MIN],
+            vec![DYN_MIN + 1],
+            vec![T_BASE],
+            vec![T_BASE + 0x50],
+            vec![u128::MAX],
+            vec![DYN_MIN + 5, DYN_MIN + 6],
+        ];
+        // which single uuids of the pool exist in the database (recycled ones included)
+        let l = rt.block_on(listing(&qs));
+        let mut existing: Vec<u128> = choices.iter().filter(|c| c.len() == 1).map(|c| c[0]).filter(|u| l.iter().any(|x| x.0 == *u)).collect();
+        existing.sort();
+        let mut reqs: Vec<Vec<Cent>> = vec![];
+        for a in &choices {
+            reqs.push(vec![Cent { uuids: a.clone(), prot: false }]);
+            for b in &choices {
+                reqs.push(vec![Cent { uuids: a.clone(), prot: false }, Cent { uuids: b.clone(), prot: false }]);
+            }
+        }
+        let n_rand = if args.thorough { 1500 } else { 200 };
+        for _ in 0..n_rand {
+            let n = rng.range(3, 5);
+            reqs.push((0..n).map(|_| Cent { uuids: rng.pick(&choices).clone(), prot: false }).collect());
+        }
+        let mut names = 0u64;
+        for req in &reqs {
+            for intern in [true, false] {
+                let (r, out, gens) = rt.block_on(async {
+                    let mut w = qs.write(duration_from_epoch_now()).await.expect("write");
+                    let ident = if intern { system_ident() } else { user_ident(&mut w, true).await };
+                    let entries: Vec<_> = req
+                        .iter()
+                        .map(|c| {
+                            names += 1;
+                            mk_entry(&format!("c20_b{}", names), c)
+                        })
+                        .collect();
+                    let ce = CreateEvent { ident, entries, return_created_uuids: false };
+                    let res = base_pre_create_transform(&mut w, &ce);
+                    drop(w);
+                    let mut gens = vec![];
+                    match res {
+                        Ok(v) => {
+                            let mut out = vec![];
+                            for (k, c) in req.iter().enumerate() {
+                                let (u, b) = v.get(k).cloned().unwrap_or((None, false));
+                                let u = u.map(|x| x.as_u128()).unwrap_or(u128::MAX - 1);
+                                if c.uuids.is_empty() {
+                                    let g = if u >= DYN_MIN { STANDIN_GEN + k as u128 + 1 } else { u };
+                                    gens.push(g);
+                                    out.push((g, b));
+                                } else {
+                                    gens.push(0);
+                                    out.push((u, b));
+                                }
+                            }
+                            ("ROk".to_string(), out, gens)
+                        }
+                        Err(e) => {
+                            for (k, _) in req.iter().enumerate() {
+                                gens.push(STANDIN_GEN + k as u128 + 1);
+                            }
+                            (err_code(&e).to_string(), vec![], gens)
+                        }
+                    }
+                });
+                let ces: Vec<String> = req.iter().zip(gens.iter()).map(|(c, g)| c_cent(c, *g)).collect();
+                let nontrivial = req.iter().any(|c| c.uuids.iter().any(|u| *u < DYN_MIN)) || r != "ROk";
+                base_cases.push((
+                    capp("CBase", &[cbool(intern), clist(&existing, |u| cn128(*u)), clist_s(&ces), r.clone(), clist(&out, |(u, b)| format!("({}, {})", cn128(*u), cbool(*b)))]),
+                    format!("base intern={} req={:?} -> {} {:?}", intern, req.iter().map(|c| c.uuids.clone()).collect::<Vec<_>>(), r, out),
+                    nontrivial,
+                ));
+                sink.bump(&format!("base_{}", r));
+            }
+        }
+    }
+
+    // ---------------------------------------------------------------- histories
+    let n_hist = if args.thorough { 260 } else { 36 };
+    for hid in 0..n_hist {
+        let g = if hid == 0 || rng.chance(3, 5) {
+            all_cfg
+        } else {
+            Cfg { mod_uuid: rng.chance(1, 2), mod_other: rng.chance(1, 2), create: rng.chance(2, 3), create_uuid: rng.chance(2, 3), delete: rng.chance(2, 3) }
+        };
+        let qs = rt.block_on(new_server(&g));
+        let l0 = rt.block_on(listing(&qs));
+        // built-in entries: everything of the reserved range
+        let builtin: Vec<u128> = l0.iter().filter(|x| x.0 < DYN_MIN).map(|x| x.0).collect();
+        let n_b = builtin.len();
+        // this history's sample of built-in entries (a sliding window covers all of them across histories)
+        let per = (n_b + n_hist - 1) / n_hist.max(1) + 2;
+        let mut bsample: Vec<u128> = (0..per).map(|k| builtin[(hid * per + k) % n_b]).collect();
+        bsample.push(*rng.pick(&builtin));
+        bsample.push(UUID_IDM_ADMINS.as_u128());
+        // both ends of the reserved range that hold an entry: admin (0) and anonymous (2^48-1)
+        bsample.push(0);
+        bsample.push(ANON);
+        let fresh: Vec<u128> = (0..5u128).map(|k| T_BASE + 0x10 + k).collect();
+        let targets: Vec<u128> = (0..4u128).map(|k| T_BASE + k).collect();
+        let create_pool: Vec<u128> = {
+            let mut v = vec![0, 1, R0, 0xc200_0001, DNE - 1, DNE, ANON, DYN_MIN, DYN_MIN + 1, T_BASE];
+            v.extend(fresh.iter());
+            v
+        };
+        let mut track: Vec<u128> = vec![U_USER, U_GROUP, U_ACP];
+        track.extend(create_pool.iter());
+        track.extend(targets.iter());
+        track.extend(bsample.iter());
+        track.sort();
+        track.dedup();
+        // values used inside modlists
+        let mut vals: Vec<u128> = vec![0, 1, ANON, DYN_MIN, T_BASE + 0x40, u128::MAX];
+        vals.extend(targets.iter());
+        // owned test entries the system identity may modify or delete without harming the server
+        let mut owned: Vec<u128> = targets.clone();
+        owned.push(R0);
+        owned.extend(fresh.iter());
+        owned.push(DYN_MIN);
+        owned.push(DYN_MIN + 1);
+
+        // canonical initial listing: unknown random (v4) uuids become stand-ins
+        let mut init: Vec<(u128, bool, bool)> = vec![];
+        let mut unknown: Vec<(bool, bool)> = vec![];
+        for (u, p, a) in &l0 {
+            if *u >= (1u128 << 76) && (*u >> 96) != (T_BASE >> 96) {
+                unknown.push((*p, *a));
+            } else {
+                init.push((*u, *p, *a));
+            }
+        }
+        unknown.sort();
+        for (k, (p, a)) in unknown.iter().enumerate() {
+            init.push((STANDIN_INIT + k as u128, *p, *a));
+        }
+        let o0 = observe(&l0, &track);
+
+        let len = rng.range(8, if args.thorough { 30 } else { 24 }) as usize;
+        let mut names = 0u64;
+        let mut gen_ctr = 0u128;
+        let mut steps: Vec<String> = vec![];
+        let mut txt = format!("hist cfg={:?}:", g);
+        let (mut saw_guard, mut saw_resv_create, mut saw_builtin_delete) = (false, false, false);
+        for _ in 0..len {
+            let id = match rng.below(10) {
+                0 | 1 => Ident::System,
+                2 => Ident::User(false),
+                _ => Ident::User(true),
+            };
+            let is_sys = id == Ident::System;
+            let op = match rng.below(20) {
+                0..=5 => {
+                    let n = rng.range(1, 3);
+                    Op::Create(
+                        (0..n)
+                            .map(|_| {
+                                let dynp: Vec<u128> = [fresh.clone(), vec![DYN_MIN, DYN_MIN + 1]].concat();
+                                let cp: &Vec<u128> = if rng.chance(1, 2) { &dynp } else { &create_pool };
+                                let uuids = match rng.below(10) {
+                                    0 => vec![],
+                                    1 => vec![*rng.pick(cp), *rng.pick(cp)],
+                                    _ => vec![*rng.pick(cp)],
+                                };
+                                let mut uuids = uuids;
+                                uuids.dedup();
+                                Cent { uuids, prot: rng.chance(1, 10) }
+                            })
+                            .collect(),
+                    )
+                }
+                6..=11 => {
+                    let pool: Vec<u128> = if is_sys { owned.clone() } else if rng.chance(2, 3) { targets.clone() } else { [owned.clone(), bsample.clone(), vec![U_USER, U_GROUP, U_ACP]].concat() };
+                    let t = if !is_sys && rng.chance(1, 15) {
+                        Target::All
+                    } else {
+                        let mut us: Vec<u128> = (0..rng.range(1, 2)).map(|_| *rng.pick(&pool)).collect();
+                        us.dedup();
+                        Target::Uuids(us)
+                    };
+                    let own = match &t { Target::Uuids(us) => us[0], Target::All => T_BASE };
+                    Op::Modify(t, gen_ml(&mut rng, &vals, own, true))
+                }
+                12..=14 => {
+                    let pool: Vec<u128> = if is_sys { owned.clone() } else if rng.chance(1, 2) { targets.clone() } else { [owned.clone(), bsample.clone()].concat() };
+                    let mut keys: Vec<u128> = (0..rng.range(1, 3)).map(|_| *rng.pick(&pool)).collect();
+                    keys.sort();
+                    keys.dedup();
+                    Op::Batch(keys.iter().map(|k| (*k, gen_ml(&mut rng, &vals, *k, true))).collect())
+                }
+                _ => {
+                    let pool: Vec<u128> = if is_sys { owned.clone() } else if rng.chance(1, 3) { [targets.clone(), fresh.clone()].concat() } else { [owned.clone(), bsample.clone(), bsample.clone()].concat() };
+                    if !is_sys && rng.chance(1, 10) {
+                        Op::Delete(Target::All)
+                    } else {
+                        let mut us: Vec<u128> = (0..rng.range(1, 2)).map(|_| *rng.pick(&pool)).collect();
+                        us.dedup();
+                        Op::Delete(Target::Uuids(us))
+                    }
+                }
+            };
+            let (r, gens) = rt.block_on(run_op(&qs, id, &op, &mut names, &mut gen_ctr));
+            let l = rt.block_on(listing(&qs));
+            let ob = observe(&l, &track);
+            if !is_sys {
+                match &op {
+                    Op::Create(cs) => {
+                        if cs.iter().any(|c| c.uuids.iter().any(|u| *u < DYN_MIN)) {
+                            saw_resv_create = true;
+                        }
+                    }
+                    Op::Delete(Target::All) => saw_builtin_delete = true,
+                    Op::Delete(Target::Uuids(us)) => {
+                        if us.iter().any(|u| *u < DYN_MIN && l0.iter().any(|x| x.0 == *u)) {
+                            saw_builtin_delete = true;
+                        }
+                    }
+                    _ => {}
+                }
+                if r == "ESysProt" {
+                    saw_guard = true;
+                }
+            }
+            sink.bump(&format!(
+                "op_{}_{}_{}",
+                match id { Ident::System => "sys", Ident::User(true) => "rw", Ident::User(false) => "ro" },
+                match &op { Op::Create(_) => "create", Op::Modify(..) => "modify", Op::Batch(_) => "batch", Op::Delete(_) => "delete" },
+                r
+            ));
+            steps.push(format!("({}, {}, {}, {})", c_ident(id), c_op(&op, &gens), r, c_obs(&ob)));
+            let _ = std::fmt::Write::write_fmt(&mut txt, format_args!(" [{:?} {:?} => {} {:?}]", id, op, r, ob));
+        }
+        let init_s = clist(&init, |(u, p, a)| capp("mkent", &[cn128(*u), cbool(*p), if *a { "Live".into() } else { "Recycled".to_string() }]));
+        let cfg_s = capp("mkcfg", &[cbool(g.mod_uuid), cbool(g.mod_other), cbool(g.create), cbool(g.create_uuid), cbool(g.delete)]);
+        hist_cases.push((
+            capp("CHist", &[cfg_s, clist(&track, |u| cn128(*u)), init_s, c_obs(&o0), clist_s(&steps)]),
+            txt,
+            saw_guard && saw_resv_create && saw_builtin_delete,
+        ));
+        sink.bump("hist");
+        sink.add_stat("builtin_entries_seen", n_b as u64);
+        drop(qs);
+    }
+    let per = (base_cases.len() / hist_cases.len().max(1)).max(1);
+    let mut hi = hist_cases.into_iter();
+    for (k, (c, t, n)) in base_cases.into_iter().enumerate() {
+        if k % per == 0 {
+            if let Some((hc, ht, hn)) = hi.next() {
+                sink.case(hc, ht, hn);
+            }
+        }
+        sink.case(c, t, n);
+    }
+    for (hc, ht, hn) in hi {
+        sink.case(hc, ht, hn);
+    }
+    sink.finish();
 }
